@@ -47,7 +47,7 @@ func init() {
 			{Name: "strgen-real-source", Run: guarded("strgen-real-source", extraStrReal)},
 		},
 		Assumptions: []string{
-			"Go int treated as unbounded in CountGenerator (no sum near 2^63); rule parameters below 2^31 in the theorems about bounds",
+			"Go int treated as unbounded in CountGenerator (no sum near 2^63); rule parameters up to 2^40 are generated, the theorems cover every parameter that fits a Go int",
 			"the clock (time.Since) and the random sources are inputs of the model; the real clock is only bracketed (before <= ms <= after)",
 			"sort.Slice on the <= 12 rules used here is an insertion sort (stable); equal periods keep insertion order",
 			"strconv.FormatInt, []rune(string), strings.Builder.WriteRune as in the Go standard library (compared on every run)",
@@ -478,7 +478,7 @@ func countPositive(hdr []string) bool {
 	for _, r := range hdr[3:] {
 		for _, p := range strings.Split(r, ",") {
 			v, err := strconv.Atoi(p)
-			if err != nil || v <= 0 || v >= 1<<31 {
+			if err != nil || v <= 0 || v > 1<<40 {
 				return false
 			}
 		}
@@ -496,7 +496,16 @@ func checkCount(c core.Case, out []string, hdr []string) *core.Failure {
 	maxs := map[int]int{}
 	for i := 0; i < len(c.Lines); i++ {
 		if out[i] == "panic" {
-			return &core.Failure{Key: "count-panic", Desc: fmt.Sprintf("%q panicked with rules %v", c.Lines[i], hdr[3:])}
+			key := "count-panic"
+			for _, r := range hdr[3:] {
+				p := strings.Split(r, ",")
+				for _, k := range []int{1, 3} { // periodEndMaxIncr, intervalMaxIncr go through getRand
+					if v, _ := strconv.Atoi(p[k]); v >= 1<<32 {
+						key = "count-uint32-truncation"
+					}
+				}
+			}
+			return &core.Failure{Key: key, Desc: fmt.Sprintf("%q panicked with the positive rule parameters %v (period,periodEndMaxIncr,interval,intervalMaxIncr)", c.Lines[i], hdr[3:])}
 		}
 		if i == 0 {
 			continue
@@ -638,6 +647,20 @@ func classify(c core.Case, out []string) []string {
 		}
 		if !countPositive(hdr) {
 			ls = append(ls, "count-nonpositive-params")
+		}
+		for _, r := range hdr[3:] {
+			p := strings.Split(r, ",")
+			if len(p) == 4 {
+				a, _ := strconv.Atoi(p[1])
+				b, _ := strconv.Atoi(p[3])
+				if a >= 1<<32 || b >= 1<<32 {
+					ls = append(ls, "count-param-ge-2^32")
+					if a%(1<<32) == 0 || b%(1<<32) == 0 {
+						ls = append(ls, "count-param-multiple-of-2^32")
+					}
+					break
+				}
+			}
 		}
 		lo, hi := 1<<62, -1<<62
 		for i, l := range c.Lines[1:] {
